@@ -131,7 +131,7 @@ def impl_inv1d(wave, mode, yl, yh):
     import torch
     from pytorch_wavelets import DWT1DInverse
     y = DWT1DInverse(wave=wave, mode=mode)((torch.as_tensor(yl),
-                                            [None if h is None else torch.as_tensor(h) for h in yh]))
+                                            type(yh)(None if h is None else torch.as_tensor(h) for h in yh)))
     return y.numpy()
 
 
@@ -166,7 +166,7 @@ def impl_inv2d(wave, mode, yl, yh):
     import torch
     from pytorch_wavelets import DWTInverse
     y = DWTInverse(wave=wave, mode=mode)((torch.as_tensor(yl),
-                                          [None if h is None else torch.as_tensor(h) for h in yh]))
+                                          type(yh)(None if h is None else torch.as_tensor(h) for h in yh)))
     return y.numpy()
 
 
